@@ -24,16 +24,16 @@ theorem oracle_decides_open_content (mode : OpenMode) (wl : Leaf) (p : Particle)
 
 /-- A rejected child sequence yields at least one children error (attached to the parent by
     construction of `childErrors`, whose errors are all reported on the parent element). -/
-theorem rejected_reports_error (A : Arena) (n root : Nat) (w : List QN)
-    (h : verdict A n root w = false) : (childErrors A n root w).errors ≠ [] := by
+theorem rejected_reports_error (A : Arena) (n root : Nat) (w : List QN) (oc : OC)
+    (h : verdict A n root w oc = false) : (childErrors A n root w oc).errors ≠ [] := by
   unfold verdict at h
   intro he
   rw [he] at h
   simp at h
 
 /-- every child step only appends errors carrying the index of the child it processes -/
-theorem childStep_errors (A : Arena) (n root i : Nat) (q : QN) :
-    ∀ (fuel : Nat) (ls : LoopSt) (e : ChildErr), e ∈ (childStep A n root i q fuel ls).errors →
+theorem childStep_errors (A : Arena) (oc : OC) (n root i : Nat) (q : QN) :
+    ∀ (fuel : Nat) (ls : LoopSt) (e : ChildErr), e ∈ (childStep A oc n root i q fuel ls).errors →
       e ∈ ls.errors ∨ e.index = i := by
   intro fuel
   induction fuel with
@@ -41,38 +41,26 @@ theorem childStep_errors (A : Arena) (n root i : Nat) (q : QN) :
   | succ f ih =>
     intro ls e h
     unfold childStep at h
-    split at h
-    · split at h
-      · simp only [List.mem_append, List.mem_singleton] at h
-        rcases h with h | h
-        · exact .inl h
-        · exact .inr (by rw [h])
-      · split at h
-        · exact .inl h
-        · simp only [List.mem_append, List.mem_singleton] at h
-          rcases h with h | h
-          · exact .inl h
-          · exact .inr (by rw [h])
-    · split at h
-      · split at h <;>
-        · simp only [List.mem_append, List.mem_map] at h
-          rcases h with h | ⟨x, _, rfl⟩
-          · exact .inl h
-          · exact .inr rfl
-      · split at h <;> split at h
-        all_goals first
-          | (simp only [List.mem_append, List.mem_singleton] at h
-             rcases h with h | h
-             · exact .inl h
-             · exact .inr (by rw [h]))
-          | (rcases ih _ e h with h' | h'
-             · exact .inl h'
-             · exact .inr h')
+    simp only at h
+    repeat' split at h
+    all_goals first
+      | exact .inl h
+      | (simp only [List.mem_append, List.mem_singleton] at h
+         rcases h with h | h
+         · exact .inl h
+         · exact .inr (by rw [h]))
+      | (simp only [List.mem_append, List.mem_map] at h
+         rcases h with h | ⟨x, _, rfl⟩
+         · exact .inl h
+         · exact .inr rfl)
+      | (rcases ih _ e h with h' | h'
+         · exact .inl h'
+         · exact .inr h')
 
 /-- The index recorded with a children error designates a child of the parent, or `len` for
     "content ended too early": it never points outside the parent's child list. -/
-theorem error_index_in_range (A : Arena) (n root : Nat) (w : List QN) :
-    ∀ e ∈ (childErrors A n root w).errors, e.index ≤ w.length := by
+theorem error_index_in_range (A : Arena) (n root : Nat) (w : List QN) (oc : OC) :
+    ∀ e ∈ (childErrors A n root w oc).errors, e.index ≤ w.length := by
   intro e he
   unfold childErrors at he
   simp only at he
@@ -83,7 +71,7 @@ theorem error_index_in_range (A : Arena) (n root : Nat) (w : List QN) :
     · -- errors accumulated by the fold carry indices of `zipIdx`
       have key : ∀ (l : List (QN × Nat)) (ls : LoopSt),
           (∀ x ∈ l, x.2 < w.length) → (∀ e ∈ ls.errors, e.index ≤ w.length) →
-          ∀ e ∈ (l.foldl (fun ls (x : QN × Nat) => childStep A n root x.2 x.1 (4 * A.size + 8) ls) ls).errors,
+          ∀ e ∈ (l.foldl (fun ls (x : QN × Nat) => childStep A oc n root x.2 x.1 (4 * A.size + 8) ls) ls).errors,
             e.index ≤ w.length := by
         intro l
         induction l with
@@ -93,7 +81,7 @@ theorem error_index_in_range (A : Arena) (n root : Nat) (w : List QN) :
           simp only [List.foldl_cons] at he
           apply ih _ (fun y hy => hl y (List.mem_cons_of_mem _ hy)) _ e he
           intro e' he'
-          rcases childStep_errors A n root x.2 x.1 _ ls e' he' with h' | h'
+          rcases childStep_errors A oc n root x.2 x.1 _ ls e' he' with h' | h'
           · exact h e' h'
           · rw [h']; exact Nat.le_of_lt (hl x (List.mem_cons_self))
       refine key w.zipIdx _ ?_ ?_ e he
